@@ -140,7 +140,10 @@ def n1(c):
         d, p0 = [], cur
         for p in pts:
             d.append((p[0] - p0[0], p[1] - p0[1])); p0 = p
-        rel.append((op, tuple(d)))
+        d = tuple(d)
+        if op == "curve" and len(d) == 3 and d[0] == (0, 0) and d[2] == (0, 0):
+            op, d = "line", (d[1],)      # a curve whose control points coincide with its end points is a line
+        rel.append((op, d))
         cur = pts[-1]
     changed = True
     while changed and rel:
@@ -172,6 +175,8 @@ def n1_equal(a, b, ctrl_tol=0):
     if not a:
         return True
     def seg_eq(x, y):
+        if ctrl_tol and x[0] == "line" and y[0] == "curve*":
+            x = ("curve", ((0, 0), x[1][0], (0, 0)))   # the font side demoted a degenerate curve to a line
         if x[0].rstrip("*") != y[0].rstrip("*") or len(x[1]) != len(y[1]):
             return False
         if y[0].endswith("*") and ctrl_tol:
